@@ -11,7 +11,7 @@
 //	l3 end <zone> <delta_ms>           advance to the oracle's lease end of <zone> (+delta)
 //	l3 withdraw <zone>                 the parent removes the delegation (old servers stay alive)
 //	l3 repoint <zone> <same|new> <nsttl> <dsttl>   the parent re-points the zone to new servers with new data
-//	l3 behave <zone> <honest|nsauth|nschange>       what the (current) child says about itself
+//	l3 behave <zone> <honest|nsauth|nschange|sfail>       what the (current) child says about itself
 //	l3 qcross <zone> <ttl> [cd]        a second question crosses the first one's referral for <zone>; the parent raises the TTL
 //	l3 qrace <zone> [cd]               sr.<zone> is asked while the zone's lease runs out (self-referral race)
 //	l3 slowval delay= ttl=             self-contained real-time case (slow validation of a referral: the lease is anchored at its observation)
@@ -452,6 +452,21 @@ func (s *scenario) tamper(i *inst, q dns.Question, honest *dns.Msg) *dns.Msg {
 		}
 		return m
 	}
+	i.mu.Lock()
+	failing := i.mode == "sfail"
+	i.mu.Unlock()
+	if failing && honest != nil {
+		// the (old) child stops answering properly: every query gets a bare SERVFAIL
+		m := new(dns.Msg)
+		m.MsgHdr = honest.MsgHdr
+		m.Question = honest.Question
+		m.Rcode = dns.RcodeServerFailure
+		m.Authoritative = false
+		if o := honest.IsEdns0(); o != nil {
+			m.Extra = []dns.RR{o}
+		}
+		return m
+	}
 	if first == "bflip" && honest != nil && honest.Rcode == dns.RcodeNameError && !i.signed {
 		// a BARE denial: rcode only, no SOA, nothing in any section
 		honest.Ns = nil
@@ -560,6 +575,11 @@ func execNew(f []string) vlib.Res {
 	s.p = l3.NewPipe(s.w, l3.PipeOpts{DNSSEC: s.dnssec, Tweak: func(cfg *config.Config) {
 		cfg.Prefetch = uint32(pf)
 		cfg.QnameMinLevel = qmin
+		if get("ecs", "0") == "1" {
+			// ECS-aware caching: client subnets are forwarded and the cache writer takes its ECS routes
+			cfg.ECS.Enabled = true
+			cfg.ECS.CacheLimitTTL.Duration = time.Duration(vlib.Atoi(get("ecscap", "0"))) * time.Second
+		}
 		if upstreamTimeout > 0 {
 			cfg.Timeout.Duration = time.Duration(upstreamTimeout) * time.Millisecond
 			cfg.QueryTimeout.Duration = 8 * time.Second
@@ -572,7 +592,7 @@ func execNew(f []string) vlib.Res {
 	s.t0 = time.Now()
 	cur = s
 	tags := "l3,world"
-	for _, k := range []string{"k", "d", "sec", "pf", "qmin", "oob"} {
+	for _, k := range []string{"k", "d", "sec", "pf", "qmin", "oob", "ecs"} {
 		if v, ok := m[k]; ok {
 			tags += "," + k + v
 		}
@@ -1586,8 +1606,12 @@ func genL3Case(r *vlib.R, n int, emit func(string)) int {
 		}
 		return strings.Join(p, ",")
 	}
-	e(fmt.Sprintf("l3 new d=%d sec=%d ns=%s ds=%s sg=%s attl=%d neg=%d pf=%d qmin=%d oob=%d k=%d",
-		depth, secI, join(nsT), join(dsT), sg, attl, neg, pf, qmin, oob, kind))
+	ecsOn := 0
+	if r.Chance(1, 4) || (kind == 3 && r.Chance(1, 2)) {
+		ecsOn = 1 // ECS-aware caching enabled: ECS clients take the cache writer's scope routes
+	}
+	e(fmt.Sprintf("l3 new d=%d sec=%d ns=%s ds=%s sg=%s attl=%d neg=%d pf=%d qmin=%d oob=%d ecs=%d k=%d",
+		depth, secI, join(nsT), join(dsT), sg, attl, neg, pf, qmin, oob, ecsOn, kind))
 	V := chainNames[vic-1]
 	deepest := chainNames[depth-1]
 	cdMode := 2 // 0 never, 1 always, 2 sometimes
@@ -1603,7 +1627,7 @@ func genL3Case(r *vlib.R, n int, emit func(string)) int {
 		if cdMode == 1 || (cdMode == 2 && r.Chance(1, 8)) {
 			s += " cd"
 		}
-		if ecsMode == 1 || (ecsMode == 2 && r.Chance(1, 6)) {
+		if ecsMode == 1 || (ecsMode == 2 && r.Chance(1, 5)) {
 			s += " ecs" // a client behind an ECS-adding forwarder: its hits may claim the prefetch
 		}
 		if r.Chance(1, 4) {
@@ -1698,6 +1722,11 @@ func genL3Case(r *vlib.R, n int, emit func(string)) int {
 		} else {
 			hot(r.Intn(4))
 		}
+	}
+	if !quiet && pf > 0 && r.Chance(1, 3) {
+		// the child starts failing: every background refresh of its hot names comes back SERVFAIL
+		e("l3 behave " + V + " sfail")
+		hot(1 + r.Intn(3))
 	}
 	// the parent acts
 	if !forceRepoint && r.Chance(1, 2) {
